@@ -63,7 +63,7 @@ def process_case(draw):
     cores = sorted(set([1] + [draw(st.integers(2, 6)) for _ in range(2)]))
     return {"kind": "process", "spec": spec, "cores": cores, "perm": list(draw(st.permutations(range(n)))),
             "subset": sorted(draw(st.lists(st.integers(0, n - 1), min_size=1, max_size=n, unique=True))),
-            "seed": draw(st.integers(1, 10000)), "fault_locus": draw(st.integers(0, n - 1)), "fault_cores": draw(st.sampled_from([1, 2, 3])),
+            "seed": draw(st.sampled_from([0, 0, 1, 42]) if draw(st.booleans()) else st.integers(0, 10000)), "fault_locus": draw(st.integers(0, n - 1)), "fault_cores": draw(st.sampled_from([1, 2, 3])),
             "program2": draw(st.sampled_from(["call", "call-pedigree"]))}
 
 
@@ -219,7 +219,7 @@ def history_case(draw):
             ops.append([k, draw(st.integers(0, 1))])
         else:
             ops.append([k, draw(st.integers(1, 7))])
-    return {"kind": "history", "spec": spec, "fits": fits, "ops": ops, "seed": draw(st.integers(1, 10000))}
+    return {"kind": "history", "spec": spec, "fits": fits, "ops": ops, "seed": draw(st.sampled_from([0, 0, 1, 42]) if draw(st.booleans()) else st.integers(0, 10000))}
 
 
 def check_history(ctx, case):
